@@ -63,6 +63,7 @@ type Obligation struct {
 	mergeFuncs map[string]bool
 	Guards     []Guard                   `json:"guards"`
 	SingleSection []string               `json:"single_section"`
+	Critical      []Critical             `json:"critical"`
 	Clock      string                    `json:"clock"`
 	GhostFS    bool                      `json:"ghost_fs"`
 	Expect     string                    `json:"expect"` // "violated": a sensitivity twin that MUST fail
@@ -113,6 +114,7 @@ type ObResult struct {
 	Steps          int
 	Asserts        int
 	AssertsTrivial int
+	CritChecks     int
 	Verdicts       int
 	Merged         int
 	IfConverted    int
@@ -164,6 +166,7 @@ func (r *ObResult) absorb(o *ObResult) {
 	r.Steps += o.Steps
 	r.Asserts += o.Asserts
 	r.AssertsTrivial += o.AssertsTrivial
+	r.CritChecks += o.CritChecks
 	r.Verdicts += o.Verdicts
 	r.Merged += o.Merged
 	r.IfConverted += o.IfConverted
